@@ -36,10 +36,11 @@ VARIABLES l,        \* cursor into the log
           cur,      \* thread -> the Inv record of its running call (or <<>>)
           ph,       \* thread -> "idle" | "pending" | "half" | "done"
           tmp,      \* thread -> value carried between the two halves of a split operation
+          ok,       \* thread -> for a running READ: <<matched some state, matched a state with no half-done operation>>
           split,    \* some operation took effect between the two halves of a split one
           hno       \* history number
 
-vars == <<l, backend, st, cur, ph, tmp, split, hno>>
+vars == <<l, backend, st, cur, ph, tmp, ok, split, hno>>
 R == Rec[l]
 
 NoSnap == <<>>
@@ -113,40 +114,60 @@ Apply(o, s) ==
 Splittable(o) == /\ backend = "mem" /\ "MemSnapshotTwoSections" \in Dev
                  /\ o.k \in {"snap_create", "snap_rollback"}
 
+\* operations that never change the state: instead of guessing their linearisation point, every state that occurs
+\* while they run is tried (ok[t] is monotone), which is the same search without the branching
+IsRead(o) == o.k \in {"find_group", "find_by_nid", "all_groups", "group_relays", "get_secret", "find_message", "messages", "snap_list"}
+
+Matches(o, s) == Apply(o, s).ret = Norm(o.exp)
+
+NoHalf(p) == \A u \in Threads : p[u] # "half"
+
+\* re-evaluate the running reads after the state (or the set of half-done operations) changed
+Recheck(s2, p2) ==
+    ok' = [u \in Threads |->
+             IF ph[u] = "pending" /\ IsRead(cur[u])
+             THEN LET m == Matches(cur[u], s2) IN <<ok[u][1] \/ m, ok[u][2] \/ (m /\ NoHalf(p2))>>
+             ELSE ok[u]]
+
 \* linearisation points are placed as late as possible: just before the next response line
 AtResponse == l <= Len(Rec) /\ R.op = "Res"
 
 SomeHalf(t) == \E u \in Threads \ {t} : ph[u] = "half"
 
 Lin(t) ==
-    /\ AtResponse /\ ph[t] = "pending"
-    /\ LET r == Apply(cur[t], st) IN
+    /\ AtResponse /\ ph[t] = "pending" /\ ~IsRead(cur[t])
+    /\ LET r == Apply(cur[t], st)
+           p2 == [ph EXCEPT ![t] = "done"] IN
        /\ r.ret = Norm(cur[t].exp)
        /\ st' = r.s
-    /\ ph' = [ph EXCEPT ![t] = "done"]
+       /\ ph' = p2
+       /\ Recheck(r.s, p2)
     /\ split' = (split \/ SomeHalf(t))
     /\ UNCHANGED <<l, backend, cur, tmp, hno>>
 
 \* first half of a two-section operation
 LinHalf1(t) ==
     /\ AtResponse /\ ph[t] = "pending" /\ Splittable(cur[t])
-    /\ LET o == cur[t] IN
-       IF o.k = "snap_create"
-       THEN /\ tmp' = [tmp EXCEPT ![t] = Capture(st, o.g)]
-            /\ UNCHANGED st
-       ELSE /\ st.snp[o.g][o.name] # NoSnap
-            /\ tmp' = [tmp EXCEPT ![t] = st.snp[o.g][o.name]]
-            /\ st' = [st EXCEPT !.snp[o.g][o.name] = NoSnap]
     /\ Norm(cur[t].exp) = Ok
-    /\ ph' = [ph EXCEPT ![t] = "half"]
+    /\ LET o == cur[t]
+           p2 == [ph EXCEPT ![t] = "half"]
+           s2 == IF o.k = "snap_create" THEN st ELSE [st EXCEPT !.snp[o.g][o.name] = NoSnap] IN
+       /\ (o.k = "snap_rollback") => st.snp[o.g][o.name] # NoSnap
+       /\ tmp' = [tmp EXCEPT ![t] = IF o.k = "snap_create" THEN Capture(st, o.g) ELSE st.snp[o.g][o.name]]
+       /\ st' = s2
+       /\ ph' = p2
+       /\ Recheck(s2, p2)
     /\ split' = (split \/ SomeHalf(t))
     /\ UNCHANGED <<l, backend, cur, hno>>
 
 LinHalf2(t) ==
     /\ AtResponse /\ ph[t] = "half"
-    /\ LET o == cur[t] IN
-       st' = IF o.k = "snap_create" THEN [st EXCEPT !.snp[o.g][o.name] = tmp[t]] ELSE Restore(st, o.g, tmp[t])
-    /\ ph' = [ph EXCEPT ![t] = "done"]
+    /\ LET o == cur[t]
+           p2 == [ph EXCEPT ![t] = "done"]
+           s2 == IF o.k = "snap_create" THEN [st EXCEPT !.snp[o.g][o.name] = tmp[t]] ELSE Restore(st, o.g, tmp[t]) IN
+       /\ st' = s2
+       /\ ph' = p2
+       /\ Recheck(s2, p2)
     /\ tmp' = [tmp EXCEPT ![t] = <<>>]
     /\ split' = (split \/ SomeHalf(t))
     /\ UNCHANGED <<l, backend, cur, hno>>
@@ -158,15 +179,19 @@ TInv ==
     /\ l <= Len(Rec) /\ R.op = "Inv" /\ ph[R.t] = "idle"
     /\ cur' = [cur EXCEPT ![R.t] = R]
     /\ ph' = [ph EXCEPT ![R.t] = "pending"]
+    /\ ok' = [ok EXCEPT ![R.t] = IF IsRead(R) THEN LET m == Matches(R, st) IN <<m, m /\ NoHalf(ph)>> ELSE <<FALSE, FALSE>>]
     /\ Advance
     /\ UNCHANGED <<backend, st, tmp, split, hno>>
 
 TRes ==
-    /\ l <= Len(Rec) /\ R.op = "Res" /\ ph[R.t] = "done"
+    /\ l <= Len(Rec) /\ R.op = "Res"
+    /\ \/ ph[R.t] = "done" /\ UNCHANGED split
+       \/ ph[R.t] = "pending" /\ IsRead(cur[R.t]) /\ ok[R.t][1] /\ split' = (split \/ ~ok[R.t][2])
     /\ ph' = [ph EXCEPT ![R.t] = "idle"]
     /\ cur' = [cur EXCEPT ![R.t] = <<>>]
+    /\ ok' = [ok EXCEPT ![R.t] = <<FALSE, FALSE>>]
     /\ Advance
-    /\ UNCHANGED <<backend, st, tmp, split, hno>>
+    /\ UNCHANGED <<backend, st, tmp, hno>>
 
 Quiet == \A t \in Threads : ph[t] = "idle"
 
@@ -181,19 +206,20 @@ TReset ==
     /\ split' = FALSE
     /\ cur' = [t \in Threads |-> <<>>]
     /\ Advance
-    /\ UNCHANGED <<ph, tmp>>
+    /\ UNCHANGED <<ph, tmp, ok>>
 
 \* volume stress without per-call logging: only its outcome is a line; a Hang / Panic line has no step at all
 TStress ==
     /\ l <= Len(Rec) /\ R.op = "Stress" /\ Quiet
     /\ Advance
-    /\ UNCHANGED <<backend, st, cur, ph, tmp, split, hno>>
+    /\ UNCHANGED <<backend, st, cur, ph, tmp, ok, split, hno>>
 
 TraceInit ==
     /\ l = 2 /\ backend = "mem" /\ st = EmptyState
     /\ cur = [t \in Threads |-> <<>>]
     /\ ph = [t \in Threads |-> "idle"]
     /\ tmp = [t \in Threads |-> <<>>]
+    /\ ok = [t \in Threads |-> <<FALSE, FALSE>>]
     /\ split = FALSE /\ hno = 0
     /\ TLCSet(1, 2)
 
